@@ -404,6 +404,9 @@ def r6_ranges(ctx):
     if comp is not None and len(comp.generators) == 2:
         g1 = comp.generators[1]
         inner_ok = astx.u(g1.iter) == f"{g.target.id}.elected" and astx.is_name(comp.elt, g1.target.id)
+    if comp is not None and inner_ok:
+        filt = [bool_key(Normalizer(q.node, inline=False).guard(t)) for g_ in comp.generators for t in g_.ifs]
+        inner_ok = filt in ([], [f"not eq({g.target.id}.elected, [frozenset()])"], [f"not eq([frozenset()], {g.target.id}.elected)"])
     ctx.check(k == "self.election_states[:round_number + 1]" and inner_ok, q, comp or q.node,
               "get_elected folds rounds 0..rn in order", k,
               f"iterates `{k}` / inner groups ok={inner_ok}; specified self.election_states[: rn + 1] and each state's elected groups in order")
@@ -415,6 +418,9 @@ def r6_ranges(ctx):
     if comp is not None and len(comp.generators) == 2:
         g1 = comp.generators[1]
         inner_ok = key_of(q, g1.iter) == f"{g.target.id}.eliminated[::-1]" and astx.is_name(comp.elt, g1.target.id)
+    if comp is not None and inner_ok:
+        filt = [bool_key(Normalizer(q.node, inline=False).guard(t)) for g_ in comp.generators for t in g_.ifs]
+        inner_ok = filt in ([], [f"not eq({g.target.id}.eliminated, [frozenset()])"], [f"not eq([frozenset()], {g.target.id}.eliminated)"])
     ctx.check(k == "self.election_states[round_number::-1]" and inner_ok, q, comp or q.node,
               "get_eliminated folds rounds rn..0, each round reversed", k,
               f"iterates `{k}` / inner reversed={inner_ok}; specified self.election_states[rn::-1] with state.eliminated[::-1]")
@@ -478,4 +484,43 @@ RULES = [
     ("C09.R4", r4_index_guards, 8, "two-sided IndexError guard + modulo, or delegation to a guarded query"),
     ("C09.R5", r5_recorded_scores, 12, "recorded scores/order = class score function of the returned profile"),
     ("C09.R6", r6_ranges, 7, "cumulative queries use the documented slice / loop bounds"),
+]
+
+
+MO = "src/votekit/models.py"
+STV = "src/votekit/elections/election_types/ranking/stv.py"
+PL = "src/votekit/elections/election_types/ranking/plurality.py"
+TT = "src/votekit/elections/election_types/ranking/top_two.py"
+AK = "src/votekit/elections/election_types/ranking/alaska.py"
+RT = "src/votekit/elections/election_types/scores/rating.py"
+CB = "src/votekit/elections/election_types/ranking/condo_borda.py"
+FAULTS = [
+    ("getattr in models", [(MO, "        return self.length\n", "        return getattr(self, 'length')\n")], "C09.P0"),
+    ("get_remaining caches on self", [(MO, "        return tuple(self.election_states[round_number].remaining)", "        self._last_remaining = tuple(self.election_states[round_number].remaining)\n        return self._last_remaining")], "C09.R1"),
+    ("get_eliminated reverses stored tuple in place", [(MO, "        round_number = round_number % len(self.election_states)\n\n        # reverses order to match ranking convention", "        round_number = round_number % len(self.election_states)\n        self.election_states.reverse()\n        self.election_states.reverse()\n\n        # reverses order to match ranking convention")], "C09.R1"),
+    ("plurality appends during replay", [(PL, "            self.election_states.append(new_state)\n\n        return new_profile\n\n\nclass SNTV", "            pass\n        self.election_states.append(new_state)\n\n        return new_profile\n\n\nclass SNTV")], "C09.R2"),
+    ("toptwo renumbers outside guard", [(TT, "            if store_states:\n                # first state was already stored by round 1 plurality\n                # need to update round numbers\n                plurality.election_states[1].round_number = 2\n                self.election_states.append(plurality.election_states[1])",
+                                          "            self.election_states[-1].round_number = 2\n            if store_states:\n                self.election_states.append(plurality.election_states[1])")], "C09.R2"),
+    ("stv step reads election_states", [(STV, "        elif len(profile.candidates) == self.m - len(\n            [c for s in self.get_elected(prev_state.round_number) for c in s]\n        ):", "        elif len(profile.candidates) == self.m - len(\n            [c for st in self.election_states for s in st.elected for c in s]\n        ):")], "C09.R3"),
+    ("stv step consults final ranking", [(STV, "            lowest_fpv_cands = prev_state.remaining[-1]", "            lowest_fpv_cands = self.get_remaining()[-1]")], "C09.R3"),
+    ("get_elected upper bound off by one", [(MO, "            or round_number > len(self.election_states) - 1\n        ):\n            raise IndexError(\"round_number out of range.\")\n\n        round_number = round_number % len(self.election_states)\n\n        return tuple(\n            [\n                s\n                for state in self.election_states[: (round_number + 1)]",
+                                             "            or round_number > len(self.election_states)\n        ):\n            raise IndexError(\"round_number out of range.\")\n\n        round_number = round_number % len(self.election_states)\n\n        return tuple(\n            [\n                s\n                for state in self.election_states[: (round_number + 1)]")], "C09.R4"),
+    ("get_status_df skips modulo", [(MO, "        round_number = round_number % len(self.election_states)\n\n        new_index", "        new_index")], "C09.R4"),
+    ("get_step arithmetic on raw index", [(MO, "        return (self.get_profile(round_number), self.election_states[round_number])", "        return (self.get_profile(round_number), self.election_states[round_number - 0 * len(self)])")], "C09.R"),
+    ("rating scores from old profile", [(RT, "                scores = self.score_function(new_profile)", "                scores = self.score_function(profile)")], "C09.R5"),
+    ("condoborda scores first place", [(CB, "                    scores=borda_scores(new_profile),", "                    scores=borda_scores(profile),")], "C09.R5"),
+    ("stv ranks low to high", [(STV, "            remaining = score_dict_to_ranking(scores)\n\n            new_state = ElectionState(\n                round_number=prev_state.round_number + 1,\n                remaining=remaining,\n                elected=elected,\n                eliminated=eliminated,", "            remaining = score_dict_to_ranking(scores, False)\n\n            new_state = ElectionState(\n                round_number=prev_state.round_number + 1,\n                remaining=remaining,\n                elected=elected,\n                eliminated=eliminated,")], "C09.R5"),
+    ("get_elected excludes current round", [(MO, "                for state in self.election_states[: (round_number + 1)]", "                for state in self.election_states[:round_number]")], "C09.R6"),
+    ("get_elected drops filter polarity", [(MO, "                if state.elected != (frozenset(),)", "                if state.elected == (frozenset(),)")], "C09.R6"),
+    ("get_eliminated forward order", [(MO, "                for state in self.election_states[round_number::-1]", "                for state in self.election_states[: round_number + 1]")], "C09.R6"),
+    ("get_ranking order elim before remaining", [(MO, "                for s in self.get_elected(round_number)\n                + self.get_remaining(round_number)\n                + self.get_eliminated(round_number)", "                for s in self.get_elected(round_number)\n                + self.get_eliminated(round_number)\n                + self.get_remaining(round_number)")], "C09.R6"),
+    ("status df uses state i", [(MO, "            state = self.election_states[i + 1]", "            state = self.election_states[i]")], "C09.R6"),
+    ("get_profile replays one step too many", [(MO, "        for i in range(round_number):\n            profile = self._run_step(profile, self.election_states[i])\n\n        return profile", "        for i in range(round_number + 1):\n            profile = self._run_step(profile, self.election_states[i])\n\n        return profile")], "C09.R6"),
+    ("get_profile records while replaying", [(MO, "            profile = self._run_step(profile, self.election_states[i])\n\n        return profile", "            profile = self._run_step(profile, self.election_states[i], store_states=True)\n\n        return profile")], "C0"),
+    ("alaska get_profile replays from round-1 profile", [(AK, "        profile = self._profile\n\n        if round_number in [0, 1]:", "        profile = self.get_profile(0) if round_number == 0 else self._profile\n\n        if round_number in [0, 1]:")], None),
+]
+BENIGN = [
+    ("guard with <= written as not >", [(MO, "            round_number < -len(self.election_states)\n            or round_number > len(self.election_states) - 1\n        ):\n            raise IndexError(\"round_number out of range.\")\n\n        round_number = round_number % len(self.election_states)\n\n        profile = self._profile",
+                                         "            round_number >= len(self.election_states)\n            or -len(self.election_states) > round_number\n        ):\n            raise IndexError(\"round_number out of range.\")\n\n        round_number = round_number % len(self.election_states)\n\n        profile = self._profile")]),
+    ("slice written without parentheses", [(MO, "                for state in self.election_states[: (round_number + 1)]", "                for state in self.election_states[: 1 + round_number]")]),
 ]
